@@ -38,6 +38,10 @@ type jGen struct {
 	MaxMsgs        int
 	Latency        bool
 	LateSubscribe  bool
+	// MinPrefix: at least this many (up to twice as many) messages are published before anything else
+	MinPrefix int
+	// Tweak, if set, adjusts the generated scenario
+	Tweak func(*rand.Rand, *jScenario)
 }
 
 var jTopicUniverse = []string{"a", "b", "c", ""}
@@ -88,6 +92,9 @@ func genJoe(rng *rand.Rand, g jGen) *jScenario {
 	}
 	if g.Resume {
 		h := rng.IntN(3*max(capN, 3) + 2)
+		if g.MinPrefix > 0 {
+			h = g.MinPrefix + rng.IntN(g.MinPrefix)
+		}
 		for i := 0; i < h; i++ {
 			sc.Prefix = append(sc.Prefix, jMsg{Token: next(), Topics: pickTopics(rng, 2)})
 		}
@@ -244,6 +251,9 @@ func genJoe(rng *rand.Rand, g jGen) *jScenario {
 			}
 			sc.PutFault[1+len(sc.Prefix)+rng.IntN(tok-len(sc.Prefix)+1)] = "err"
 		}
+	}
+	if g.Tweak != nil {
+		g.Tweak(rng, sc)
 	}
 	return sc
 }
@@ -708,6 +718,47 @@ func TestC17(t *testing.T) {
 		out = append(out, oraclePublishReturns(tr)...)
 		out = append(out, oracleReplayerDisabled(tr)...)
 		// the failing subscribers get their own error
+		out = append(out, oracleSubscriberSafety(sc, tr)...)
+		return out
+	})
+	// long replays: hundreds of stored messages replayed to resuming subscribers whose Send or Flush
+	// fails somewhere along the way, next to healthy ones
+	gl := jGen{ClientFaults: true, Resume: true, Replayers: []string{"finite:300:manual", "finite:500:auto", "valid:manual", "valid:auto"}, MaxSubs: 6, MaxPubs: 2, MaxMsgs: 6, MinPrefix: 200, LateSubscribe: true}
+	gl.Tweak = func(rng *rand.Rand, sc *jScenario) {
+		// one subscriber takes (nearly) the whole backlog and fails at a late call of it
+		var first *jMsg
+		lo := 0
+		var capN int
+		if n, _ := fmt.Sscanf(sc.Replayer, "finite:%d:", &capN); n == 1 && len(sc.Prefix) > capN {
+			lo = len(sc.Prefix) - capN
+		}
+		for k := lo; k < len(sc.Prefix); k++ {
+			if !sc.Prefix[k].BadID {
+				first = &sc.Prefix[k]
+				break
+			}
+		}
+		if first == nil {
+			return
+		}
+		s := &sc.Subs[rng.IntN(len(sc.Subs))]
+		s.Topics = []string{"a", "b", "c", ""}
+		if sc.autoIDs() {
+			s.LastID = strconv.Itoa(lo)
+		} else {
+			s.LastID = "id-" + first.Token
+		}
+		s.LastIDSet, s.LastIDClass = true, "oldest"
+		s.FailSendAt, s.FailFlushAt = 0, 0
+		if rng.IntN(2) == 0 {
+			s.FailFlushAt = 1 + rng.IntN(2)
+		} else {
+			s.FailSendAt = 2 + rng.IntN(len(sc.Prefix)-lo)
+		}
+	}
+	jLoop(t, r, "L", r.N(48, 800), gl, 2, 2, []map[string]int64{{"loop.replayed": 100}, {"loop.sent": 5}}, func(sc *jScenario, tr *jTrace) []jv {
+		out := oracleDelivery(sc, tr, false)
+		out = append(out, oraclePublishReturns(tr)...)
 		out = append(out, oracleSubscriberSafety(sc, tr)...)
 		return out
 	})
